@@ -247,3 +247,5 @@ func sortedStrings(m map[string]struct{}) []string {
 	sort.Strings(out)
 	return out
 }
+
+func sortInts(a []int) { sort.Ints(a) }
